@@ -1,6 +1,7 @@
-(* C11 / C02 -- Model/BootParse.v: the statements about the reopened object that are FALSE for the code as
-   it is, with their witnesses (both reproduced on the library: /var/tmp/bootparse/repro_hidden_overlap.py,
-   repro_hidden_shrinks.py; tools/boot_parse_cases.py hits them too). *)
+(* C11 / C02 -- Model/BootParse.v: the statements about the reopened object that were FALSE for the code
+   before commits 063269b and 9223b0e (both found with this model and reproduced on the library:
+   /var/tmp/bootparse/repro_hidden_overlap.py, repro_hidden_shrinks.py), with their witnesses, and what the
+   current code does on the same witnesses. *)
 From Coq Require Import ZArith List Bool Lia.
 From PV.Base Require Import Prim.
 From PV.Gen Require Import GenConst GenFun.
@@ -22,62 +23,72 @@ Definition bp_overlap_ops : list bop :=
 Definition bp_shrink_ops : list bop :=
   [BAddFile [] bp_nA 70000; BAddFile [] bp_nC 100; bp_el [bp_nA] (Some 4); BRmLink [] bp_nA].
 
-(* 1. after open() the declared volume size is NOT the end of the layout, in both directions *)
-Theorem boot_reopen_space_exact_refuted :
+(* The code BEFORE commits 063269b / 9223b0e ([Old] / [Mid]): after open() the declared volume size is NOT the
+   end of the layout, in both directions.  For the current code: Proofs/BootParseExact.v, BootParseMain.v. *)
+Theorem boot_reopen_space_exact_refuted_old :
   (exists ops, let s := brun binit ops in
-     boot_parse (boot_view s) = POk (reopened s) /\ lspace (bl (reopened s)) < blayout_end (reopened s)) /\
+     boot_parse_gen Old (boot_view s) = POk (reopened_gen Old s) /\
+     lspace (bl (reopened_gen Old s)) < blayout_end (reopened_gen Old s)) /\
   (exists ops, let s := brun binit ops in
-     boot_parse (boot_view s) = POk (reopened s) /\ blayout_end (reopened s) < lspace (bl (reopened s))).
+     boot_parse_gen Mid (boot_view s) = POk (reopened_gen Mid s) /\
+     blayout_end (reopened_gen Mid s) < lspace (bl (reopened_gen Mid s))).
 Proof.
   split.
   - exists bp_overlap_ops. vm_compute. split; reflexivity.
   - exists bp_shrink_ops. vm_compute. split; reflexivity.
 Qed.
 
-(* the first witness in detail: the two boot files without names come back OVERLAPPING (the room of the
-   first one is measured up to the next NAMED file, not up to the second entry's extent), the next layout
-   needs 31 blocks, pvd.space_size says 30: _reshuffle_extents raises 'Assigned an extent beyond the ISO' *)
-Theorem boot_reopen_hidden_overlap :
+(* the first witness in detail (before 063269b): the two boot files without names come back OVERLAPPING (the
+   room of the first one is measured up to the next NAMED file, not up to the second entry's extent), the next
+   layout needs 31 blocks, pvd.space_size says 30: _reshuffle_extents raises 'Assigned an extent beyond the ISO' *)
+Theorem boot_reopen_hidden_overlap_refuted_old :
   let s := brun binit bp_overlap_ops in
   entry_rbas s = [26; 27] /\
-  reopened_src s = [(2%nat, (29, 100)); (0%nat, (26, 4096)); (1%nat, (27, 4096))] /\
+  reopened_src_gen Old s = [(2%nat, (29, 100)); (0%nat, (26, 4096)); (1%nat, (27, 4096))] /\
   ~ disjoint (26, ceiling_div 4096 C) (27, ceiling_div 4096 C) /\
-  lspace (bl (reopened s)) = 30 /\ blayout_end (reopened s) = 31 /\ bp_wrecked (reopened s) = true.
+  lspace (bl (reopened_gen Old s)) = 30 /\ blayout_end (reopened_gen Old s) = 31 /\
+  bp_wrecked (reopened_gen Old s) = true /\
+  (* the current code: no overlap, exact *)
+  reopened_src s = [(2%nat, (29, 100)); (0%nat, (26, 2048)); (1%nat, (27, 4096))] /\
+  lspace (bl (reopened s)) = 30 /\ blayout_end (reopened s) = 30.
 Proof.
   vm_compute. repeat split; try reflexivity. intros [H|H]; apply H; reflexivity.
 Qed.
 
-(* the second witness in detail: 34 of the 35 blocks of the boot file are dropped by the next layout, but
-   stay counted in pvd.space_size, also after further edits (add_fp here) *)
-Theorem boot_reopen_hidden_shrinks :
+(* the second witness in detail (before 9223b0e): a boot file without directory record and without boot info
+   table whose entry loads fewer sectors than the file holds loses its tail: 34 of its 35 blocks are dropped by
+   the next layout, but stay counted in pvd.space_size, also after further edits (add_fp here) *)
+Theorem boot_reopen_hidden_tail_lost_refuted_old :
   let s := brun binit bp_shrink_ops in
-  len_of 0%nat (linodes (bl s)) = 70000 /\ len_of 0%nat (linodes (bl (reopened s))) = 2048 /\
-  lspace (bl (reopened s)) = 62 /\ blayout_end (reopened s) = 28 /\
-  let r' := fst (bstep (reopened s) (BAddFile [] bp_nB 1)) in
-  lspace (bl r') = 63 /\ blayout_end r' = 29.
+  len_of 0%nat (linodes (bl s)) = 70000 /\ len_of 0%nat (linodes (bl (reopened_gen Mid s))) = 2048 /\
+  lspace (bl (reopened_gen Mid s)) = 62 /\ blayout_end (reopened_gen Mid s) = 28 /\
+  (let r' := fst (bstep (reopened_gen Mid s) (BAddFile [] bp_nB 1)) in lspace (bl r') = 63 /\ blayout_end r' = 29) /\
+  (* the current code: every block (the bytes and the padding of the last block) comes back *)
+  len_of 0%nat (linodes (bl (reopened s))) = 35 * 2048 /\
+  lspace (bl (reopened s)) = 62 /\ blayout_end (reopened s) = 62.
 Proof. vm_compute. repeat split; reflexivity. Qed.
 
-(* 2. writing the reopened, unedited state (after a new layout) does not give the same image ... *)
-Theorem boot_reopen_second_write_fixpoint_refuted :
+(* before 9223b0e: writing the reopened, unedited state (after a new layout) does not give the same image,
+   though the SECOND rewrite is stable on this witness *)
+Theorem boot_reopen_second_write_fixpoint_refuted_old :
   exists ops, let s := brun binit ops in
-    view_sig_eqb (own_len (reopened s)) s (reopened s) = false.
-Proof. exists bp_shrink_ops. vm_compute. reflexivity. Qed.
+    view_sig_eqb (own_len (reopened_gen Mid s)) s (reopened_gen Mid s) = false /\
+    let r := reopened_gen Mid s in
+    view_sig_eqb (own_len (reopened_gen Mid r)) r (reopened_gen Mid r) = true.
+Proof. exists bp_shrink_ops. vm_compute. split; reflexivity. Qed.
 
-(* ... but on these witnesses the SECOND rewrite is stable: reopening the reopened state changes nothing more *)
-Theorem boot_reopen_third_write_stable_example :
-  let r := reopened (brun binit bp_shrink_ops) in
-  view_sig_eqb (own_len (reopened r)) r (reopened r) = true /\
-  linodes (bl (reopened r)) = linodes (bl r) /\ lspace (bl (reopened r)) = lspace (bl r).
-Proof. vm_compute. repeat split; reflexivity. Qed.
-
-(* 3. rm_eltorito on the reopened object does not end in the state of rm_eltorito followed by reopen: the
-   blocks the hidden boot file lost at open() stay in pvd.space_size *)
-Theorem boot_reopen_rm_eltorito_refuted :
+(* before 9223b0e: rm_eltorito on the reopened object does not end in the state of rm_eltorito followed by
+   reopen: the blocks the hidden boot file lost at open() stay in pvd.space_size *)
+Theorem boot_reopen_rm_eltorito_refuted_old :
   exists ops, let s := brun binit ops in
-    lspace (bl (fst (bstep (reopened s) BRmEltorito))) <> lspace (bl (reopened (fst (bstep s BRmEltorito)))).
-Proof. exists bp_shrink_ops. vm_compute. discriminate. Qed.
+    lspace (bl (fst (bstep (reopened_gen Mid s) BRmEltorito))) <>
+    lspace (bl (reopened_gen Mid (fst (bstep s BRmEltorito)))) /\
+    (* the current code agrees on this witness *)
+    lspace (bl (fst (bstep (reopened s) BRmEltorito))) = lspace (bl (reopened (fst (bstep s BRmEltorito)))).
+Proof. exists bp_shrink_ops. vm_compute. split; [discriminate|reflexivity]. Qed.
 
-Print Assumptions boot_reopen_space_exact_refuted.
-Print Assumptions boot_reopen_hidden_overlap.
-Print Assumptions boot_reopen_second_write_fixpoint_refuted.
-Print Assumptions boot_reopen_rm_eltorito_refuted.
+Print Assumptions boot_reopen_space_exact_refuted_old.
+Print Assumptions boot_reopen_hidden_overlap_refuted_old.
+Print Assumptions boot_reopen_hidden_tail_lost_refuted_old.
+Print Assumptions boot_reopen_second_write_fixpoint_refuted_old.
+Print Assumptions boot_reopen_rm_eltorito_refuted_old.
